@@ -77,6 +77,14 @@ static int is_busy(void* addr) { int h = handle_of(addr); return h >= 0 && addr 
 /* ------------------------------------------------------------------ instrumented operations */
 static int sched_atomic(int kind, _Atomic int* p, int v) {
   int r = 0;
+  if (handle_of((void*) p) < 0) {        /* loop->wq_async (the thread pool's own handle, never sent to here): not a schedule point */
+    switch (kind) {
+      case K_LOADX: case K_LOAD: return __c11_atomic_load(p, __ATOMIC_SEQ_CST);
+      case K_STORE: __c11_atomic_store(p, v, __ATOMIC_SEQ_CST); return 0;
+      case K_XCHG: return __c11_atomic_exchange(p, v, __ATOMIC_SEQ_CST);
+      default: return __c11_atomic_fetch_add(p, v, __ATOMIC_SEQ_CST);
+    }
+  }
   sched_park(kind, (void*) p, v);
   if (sched_unwinding) {                 /* end of run: leave quickly, touch nothing */
     switch (kind) { case K_LOADX: return 1; case K_XCHG: return v; default: return 0; }
@@ -281,6 +289,7 @@ static void lists_str(char* qs, char* hls) {
   uv__queue_foreach(q, &L->async_handles) {
     uv_async_t* a = uv__queue_data(q, uv_async_t, queue);
     h = handle_of(a);
+    if (a == &L->wq_async) continue;
     if (h < 0) { p += sprintf(p, "?"); continue; }
     inhl[h] = 1;
     p += sprintf(p, "%s%d", first ? "" : ",", h); first = 0;
@@ -292,10 +301,11 @@ static void lists_str(char* qs, char* hls) {
     /* h sits on the local queue: find the head (the only node that is not a handle) and list from there */
     struct uv__queue* n = &H[h]->queue;
     int guardn = 0;
-    while (handle_of(n) >= 0 && guardn++ < 2 * MAXH) n = n->next;
-    if (handle_of(n) >= 0) { p += sprintf(p, "?"); break; }
+    while ((handle_of(n) >= 0 || n == &L->wq_async.queue) && guardn++ < 2 * MAXH + 2) n = n->next;
+    if (handle_of(n) >= 0 || n == &L->wq_async.queue) { p += sprintf(p, "?"); break; }
     for (q = n->next; q != n; q = q->next) {
       int g = handle_of(q);
+      if (q == &L->wq_async.queue) continue;
       p += sprintf(p, "%s%d", first ? "" : ",", g); first = 0;
     }
     break;
@@ -405,7 +415,7 @@ static void end_run(void) {
   }
   uv_run(L, UV_RUN_NOWAIT);
   for (h = 0; h < nh; h++) if (!freed[h]) { fprintf(stderr, "tear-down: h%d not released\n", h); exit(3); }
-  if (!uv__queue_empty(&L->async_handles)) { fprintf(stderr, "tear-down: async_handles not empty\n"); exit(3); }
+  if (uv__queue_head(&L->async_handles) != &L->wq_async.queue || L->wq_async.queue.next != &L->async_handles) { fprintf(stderr, "tear-down: async_handles not back to {wq_async}\n"); exit(3); }
   cleanup_mode = 0;
 }
 
